@@ -26,7 +26,7 @@ def run(ctx, rep):
     rep.rule("R19-APPLY", "V1/V2: (datum?) -> redeemer -> context; V3: context only", floor=2)
     rep.rule("R19-THREAD", "the caller's budget reaches every evaluation in do_eval_redeemer, and every eval_redeemer call of the loop gets &remaining_budget", floor=6)
     rep.rule("R19-BUDGET", "after each redeemer the remaining budget is decremented in both dimensions (cpu<->steps, mem<->mem) by the units of the redeemer the evaluation returned, which is also what is reported", floor=4)
-    rep.rule("R19-COST", "every evaluation entry point reports cost against the budget its machine was created with", floor=6)
+    rep.rule("R19-COST", "every evaluation entry point reports cost against the budget its machine was created with", floor=3)
     rep.guarded("R19-COST", lambda: r_cost(sh, rep))
     rep.rule("R19-CERTS", "phase one and phase two agree on which certificates need a script (same Certificate variants carry a script credential)", floor=1)
     rep.guarded("R19-CERTS", lambda: r_certs(sh, rep))
@@ -263,8 +263,8 @@ def r_cost(sh, rep):
         rem = sh.nsrc(AST, e["args"][1]) if len(e["args"]) > 2 else "?"
         ini = sh.nsrc(AST, e["args"][2]) if len(e["args"]) > 2 else "?"
         rep.check(rem == "machine.ex_budget" and ini in margs, "R19-COST", "%s#cost-from-the-budget-the-machine-got" % q.split("::")[-1], sh.loc(AST, e), "%s builds its result with remaining = `%s` and initial = `%s`, but the machine was created with %s: the reported execution units are off by the difference, for every script evaluated through this entry point" % (q, rem, ini, sorted(margs)), sample={"initial": ini})
-    if n < 6:
-        rep.bad("R19-COST", "eval-entry-points", AST, "only %d evaluation entry points pairing Machine::new* with EvalResult::new found, 6 confirmed by hand (anchor)" % n)
+    if n < 3:
+        rep.bad("R19-COST", "eval-entry-points", AST, "only %d evaluation entry points pairing Machine::new* with EvalResult::new found (6 on the pinned tree; entry points may delegate to one another, fewer than 3 means the detector is blind)" % n)
 
 
 def r_pointer(sh, rep):
